@@ -135,6 +135,30 @@ func (fl *File) Base() int {
 	return fl.base
 }
 
+// lineStart returns the number of line terminators in src and the offset just
+// after the last one. A line terminator is LF, CR, CR LF (counted once), U+2028
+// or U+2029 (ECMA-262 7.3), the same set the parser uses for its positions.
+func lineStart(src string) (lines, start int) {
+	for index := 0; index < len(src); index++ {
+		switch src[index] {
+		case '\n':
+			if index == 0 || src[index-1] != '\r' {
+				lines++
+			}
+			start = index + 1
+		case '\r':
+			lines++
+			start = index + 1
+		case 0xE2: // U+2028 and U+2029 are E2 80 A8 and E2 80 A9 in UTF-8
+			if strings.HasPrefix(src[index:], "\u2028") || strings.HasPrefix(src[index:], "\u2029") {
+				lines++
+				start = index + 3
+			}
+		}
+	}
+	return lines, start
+}
+
 // Position returns the position at idx or nil if not valid.
 func (fl *File) Position(idx Idx) *Position {
 	position := &Position{}
@@ -145,17 +169,12 @@ func (fl *File) Position(idx Idx) *Position {
 		return nil
 	}
 
-	src := fl.src[:offset]
+	lines, start := lineStart(fl.src[:offset])
 
 	position.Filename = fl.name
 	position.Offset = offset
-	position.Line = strings.Count(src, "\n") + 1
-
-	if index := strings.LastIndex(src, "\n"); index >= 0 {
-		position.Column = offset - index
-	} else {
-		position.Column = len(src) + 1
-	}
+	position.Line = lines + 1
+	position.Column = offset - start + 1
 
 	if fl.sm != nil {
 		if f, _, l, c, ok := fl.sm.Source(position.Line, position.Column); ok {
